@@ -1,7 +1,8 @@
 ---------------------------- MODULE TraceElvCore ----------------------------
 (* V for C15: recorded executions of the REAL Evaler, one event per top-level chunk
      [ev |-> "chunk", ast |-> AST, out |-> values (projected), exc |-> cause (projected)]
-   programs separated by [ev |-> "reset"] (fresh Evaler).  The walker evaluates every chunk with
+   programs separated by [ev |-> "reset", mods |-> <<<<name, chunk>>, ...>>] (fresh Evaler with these
+   in-memory modules available to `use`).  The walker evaluates every chunk with
    the reference semantics EvalChunk, carrying the interpreter state from chunk to chunk, and
    requires exactly the recorded value output and exception cause.
    After a rejection, and after a chunk that left the model (OutOfModel: printed with "oom",
@@ -11,15 +12,15 @@ Cases == ndJsonDeserialize("cases.ndjson")
 VARIABLES pos, w
 Init == pos = 0 /\ w = [st |-> InitState, skip |-> FALSE]
 Step(cur, e, i) ==
-  IF e.ev = "reset" THEN [st |-> InitState, skip |-> FALSE]
+  IF e.ev = "reset" THEN [st |-> WithModules(InitState, e.mods), skip |-> FALSE]
   ELSE IF cur.skip THEN cur
   ELSE LET r == EvalChunk(cur.st, e.ast) IN
        IF Skip(r.exc) THEN [st |-> cur.st, skip |-> PrintT(<<"BAD", i, "oom", r.exc.why>>)]
        ELSE IF \E q \in 1..Len(r.out) : Opaque(r.out[q]) THEN [st |-> cur.st, skip |-> PrintT(<<"BAD", i, "oom", "opaque value in the output">>)]
-       ELSE IF SeqMatches(r.out, e.out) /\ CauseMatches(r.exc, e.exc) THEN [st |-> r.st, skip |-> FALSE]
+       ELSE IF SeqMatches(r.out, e.out) /\ r.bytes = e.bytes /\ CauseMatches(r.exc, e.exc) THEN [st |-> r.st, skip |-> FALSE]
        ELSE [st |-> r.st,
              skip |-> PrintT(<<"BAD", i, "mismatch",
-                               ToJson([out |-> [j \in 1..Len(r.out) |-> Show(r.out[j])], exc |-> ShowCause(r.exc)])>>)]
+                               ToJson([out |-> [j \in 1..Len(r.out) |-> Show(r.out[j])], bytes |-> r.bytes, exc |-> ShowCause(r.exc)])>>)]
 Next == pos < Len(Cases) /\ pos' = pos + 1 /\ w' = Step(w, Cases[pos + 1], pos + 1)
 Inv == TRUE
 =============================================================================
